@@ -858,6 +858,35 @@ func Script(assumptions []*Term, goal *Term, wantModel bool, modelTerms []*Term)
 	vars := map[string]*Term{}
 	ufs := map[string]*UF{}
 	boundVars := map[*Term]bool{}
+	// pre-pass: every variable bound by some quantifier of the script. Terms mentioning such a
+	// variable are never hoisted into define-funs (whether the occurrence is bound or free), and the
+	// variable is also declared as a constant, so that free occurrences (facts generated while a
+	// quantified spec was being evaluated) are well-formed and refer to a separate global symbol.
+	{
+		seen := map[*Term]bool{}
+		var pre func(t *Term)
+		pre = func(t *Term) {
+			if seen[t] {
+				return
+			}
+			seen[t] = true
+			for _, b := range t.Bound {
+				boundVars[b] = true
+			}
+			for _, a := range t.Args {
+				pre(a)
+			}
+			for _, a := range t.Pats {
+				pre(a)
+			}
+		}
+		for _, r := range roots {
+			pre(r)
+		}
+		for b := range boundVars {
+			vars[b.Name] = b
+		}
+	}
 	underQ := map[*Term]bool{} // terms that contain bound variables (cannot be hoisted)
 	var visit func(t *Term) bool
 	visit = func(t *Term) bool {
@@ -1000,5 +1029,11 @@ func FreeSyms(t *Term, out map[string]bool, seen map[*Term]bool) {
 	}
 	for _, a := range t.Args {
 		FreeSyms(a, out, seen)
+	}
+	if t.Op == "forall" || t.Op == "exists" {
+		// bound variables have unique names: they are not free symbols of the quantified term
+		for _, b := range t.Bound {
+			delete(out, b.Name)
+		}
 	}
 }
